@@ -172,7 +172,7 @@ def cases(tier, seed):
         yield {"k": "licenses", "name": name}
     for cmd in ("lint-json", "spdx", "annotate", "lint-file"):
         for err in ("EACCES", "ENOENT", "EISDIR", "EIO"):
-            for kth in range(0, 14):
+            for kth in range(0, 18):
                 yield {"k": "io", "cmd": cmd, "err": err, "kth": [kth]}
     if tier == "thorough":
         for cmd in ("lint-json", "spdx"):
@@ -491,7 +491,8 @@ def ev_io(c) -> R:
     r = R()
     root = fresh_dir("c16")
     rec = dict(BASE)
-    rec["src/c.py"] = H + "c = 1\n"
+    rec["src/c.py"] = H.replace("MIT", "MIT AND LicenseRef-own") + "c = 1\n"
+    rec["LICENSES/LicenseRef-own.txt"] = "the text of a custom licence (spdx copies it into the document)\n"
     rec["REUSE.toml"] = 'version = 1\n\n[[annotations]]\npath = "src/b.c"\nSPDX-FileCopyrightText = "2020 B"\nSPDX-License-Identifier = "MIT"\n'
     materialise(root, rec)
     pre = str(root) + "/"
